@@ -233,6 +233,10 @@ func (f *Frame) call(c *ssa.CallCommon, pos token.Pos, v ssa.Value) []Val {
 		vc.trust("library call without heap effect: " + name)
 		return f.freshResults(c, fn.Name())
 	}
+	// compiler-generated wrappers (method expressions T.M, bound methods): executed in place
+	if fn.Synthetic != "" && fn.Blocks != nil && f.smallHelper(fn) {
+		return f.inlineCall(fn, args, nil)
+	}
 	// unknown library function: havoc what is reachable from the arguments
 	vc.noteUncontracted(name)
 	f.havocReachable(c.Args)
@@ -378,6 +382,7 @@ func (f *Frame) havocAllExceptLocals() {
 		f.havocKeepOld(k, old, oldNext)
 	}
 	f.restorePrivate(before)
+	f.restoreOwned(before)
 	f.keepHeldProtected(before)
 	f.vc.assume(fmt.Sprintf("(>= %s %s)", f.vc.get(f.cur, "next"), oldNext))
 	f.assumeRely()
@@ -1604,6 +1609,7 @@ func (f *Frame) interfere(m *Monitor, st types.Type, base string) {
 		}
 		vc.havocComp(f.cur, c)
 	}
+	f.restoreOwned(before)
 	// environment changes are not this function's writes: re-base the frame
 	for _, c := range f.lockWritesOf(st, m) {
 		f.setFrameBase(c)
@@ -1824,6 +1830,12 @@ func (f *Frame) siteCall(c *ssa.CallCommon, pos token.Pos) {
 	}
 	if len(rc.Sites) == 0 {
 		return
+	}
+	f.siteCallee = ""
+	if fn := c.StaticCallee(); fn != nil {
+		f.siteCallee = fn.String()
+	} else if c.IsInvoke() {
+		f.siteCallee = c.Value.Type().String() + "." + c.Method.Name()
 	}
 	name := shortCallee(c)
 	// "<name>@n": the n-th call (in source order) of that callee inside this function
